@@ -100,18 +100,21 @@ Bases(ty) == {Norm(ty, Default), Norm(ty, AllMin), Norm(ty, AllMax)}
 RoundTripCases == UNION {{[kind |-> "rt", ty |-> ty, d |-> d, p |-> <<>>, k |-> "value", max |-> 0, n |-> 0, op |-> "roundtrip", arg |-> ""] : d \in Bases(ty)} : ty \in Types}
 
 \* ------------------------------------------------------------------ CBOR item tree of the encoding of (ty, d)
-\* item = [p |-> path (0-based child indices), k |-> kind, max |-> limit, n |-> element/field count]
+\* item = [p |-> path (0-based child indices), k |-> kind, max |-> limit,
+\*         n |-> element/field count of arrays and tuples, content length of byte strings]
 Item(p, k, max, n) == [p |-> p, k |-> k, max |-> max, n |-> n]
+MinN(a, b) == IF a < b THEN a ELSE b
+ByteLen(f, d) == IF f.n = "Key" THEN d.key ELSE IF f.max = PubKeyMax THEN MinN(d.sig, PubKeyMax) ELSE d.sig
 Count(f, d) == IF f.k = "chain" THEN d.chain ELSE d.entries
 Picks(n) == IF n = 0 THEN {} ELSE {0, n - 1}
 RECURSIVE ItemsOf(_, _, _, _)
 ItemsOf(f, d, p, fuel) ==
   CASE f.k \in {"uint", "int", "uint8", "bool"} -> {Item(p, f.k, 0, 0)}
-    [] f.k = "bytes" -> {Item(p, "bytes", f.max, 0)}
-    [] f.k = "fix" -> {Item(p, "fix", f.max, 0)}
-    [] f.k = "bigint" -> {Item(p, "bigint", BigIntMax, 0)}
-    [] f.k = "bitfield" -> {Item(p, "bitfield", BitFieldMax, 0)}
-    [] f.k = "cid" -> {Item(p, "cid", 0, 0), Item(p \o <<0>>, "cidbytes", CidBytesMax, 0)}
+    [] f.k = "bytes" -> {Item(p, "bytes", f.max, ByteLen(f, d))}
+    [] f.k = "fix" -> {Item(p, "fix", f.max, f.max)}
+    [] f.k = "bigint" -> {Item(p, "bigint", BigIntMax, 1)}       \* the corrupted bases have small integers,
+    [] f.k = "bitfield" -> {Item(p, "bitfield", BitFieldMax, 1)} \* small bitfields: content far below the limit
+    [] f.k = "cid" -> {Item(p, "cid", 0, 0), Item(p \o <<0>>, "cidbytes", CidBytesMax, 37)}
     [] f.k = "struct" \/ (f.k = "ptr" /\ (f.t # "Justification" \/ d.just = 1)) ->
          {Item(p, "struct", 0, Len(Schema[f.t]))}
          \cup (IF fuel = 0 THEN {} ELSE UNION {ItemsOf(Schema[f.t][i], d, p \o <<i - 1>>, fuel - 1) : i \in DOMAIN Schema[f.t]})
@@ -129,12 +132,14 @@ MajName(m) == <<"m0", "m1", "m2", "m3", "m4", "m5", "m6", "m7">>[m + 1]
 HasLen(k) == k \in {"bytes", "fix", "bigint", "bitfield", "cidbytes", "slice", "chain"}
 
 \* corruption ops of one item.  Symbolic header values: "max1" = limit+1, "max10" = 10*limit, "u32" = 2^32,
-\* "u63" = 2^63, "u64" = 2^64-1, "n+1"/"n-1" = field count of a tuple off by one, "len+1"/"len-1" for fixed arrays
+\* "u63" = 2^63, "u64" = 2^64-1, "max" = the limit itself, "n+1"/"n-1" = field count of a tuple off by one, "len+1"/"len-1" for fixed arrays
 OpsOf(it) ==
   {[op |-> "trunc", arg |-> "start"], [op |-> "trunc", arg |-> "hdr"]}
   \cup (IF it.p = <<>> THEN {[op |-> "trunc", arg |-> "end-1"]} ELSE {})
   \cup {[op |-> "major", arg |-> MajName(m)] : m \in (0..7) \ Accepted(it.k)}
   \cup (IF HasLen(it.k) THEN {[op |-> "hdrlen", arg |-> v] : v \in {"max1", "max10", "u32", "u63", "u64"}} ELSE {})
+  \* a header claiming exactly the limit while the content is shorter: the decoder may pre-allocate, then hits EOF
+  \cup (IF HasLen(it.k) /\ it.n < it.max THEN {[op |-> "hdrlen", arg |-> "max"]} ELSE {})
   \cup (IF it.k = "struct" THEN {[op |-> "hdrlen", arg |-> v] : v \in {"n+1", "n-1", "u64"}} ELSE {})
   \cup (IF it.k = "fix" THEN {[op |-> "hdrlen", arg |-> v] : v \in {"len-1"}} \cup {[op |-> "resize", arg |-> v] : v \in {"len-1", "max1"}} ELSE {})
   \cup (IF it.k \in {"bytes", "bigint", "bitfield", "cidbytes"} THEN {[op |-> "resize", arg |-> "max1"]} ELSE {})
